@@ -51,6 +51,7 @@ class Ctx:
     self.ix = Index(repo)
     self.prog = Program(self.ix)
     self.obs = []
+    self.analysis_errors = []
     self.notes = []
     self.assumptions = []
     self.modules_used = set()
@@ -73,6 +74,15 @@ class Ctx:
 
   def note(self, text):
     self.notes.append(text)
+
+  def section(self, fn, *args, **kw):
+    """Runs one rule group; an AnalysisError inside it does not stop the
+    other groups (it is reported as exit 2 only if nothing is violated)."""
+    try:
+      return fn(*args, **kw)
+    except AnalysisError as e:
+      self.analysis_errors.append(str(e))
+      return None
 
   def assume(self, *facts):
     for f in facts:
@@ -139,10 +149,23 @@ def run_property(pid, tier='quick', seed=0, repo=None, write=True, quiet=False,
     if not quiet:
       print(s, flush=True)
 
+  analysis_errors = []
   try:
     ctx = Ctx(repo)
     mod = importlib.import_module('ginsa.rules.' + pid.lower())
-    mod.run(ctx)
+    try:
+      mod.run(ctx)
+    except AnalysisError as e:
+      # A rule could not interpret the tree.  Violations already established by
+      # earlier rules stand (exit 1); otherwise the run is an ANALYSIS-ERROR.
+      analysis_errors.append(str(e))
+    analysis_errors.extend(ctx.analysis_errors)
+    if analysis_errors and not any(not o.ok for o in ctx.obs):
+      say('ANALYSIS-ERROR property=%s %s' % (pid, '; '.join(analysis_errors)))
+      return 2, [], out
+    for e in analysis_errors:
+      ctx.note('ANALYSIS-ERROR in a later rule (violations above stand): ' + e)
+      say('note: a later rule could not be evaluated: ' + e)
     extra = {}
     selftest_bad = []
     if tier == 'thorough':
